@@ -183,6 +183,30 @@ def make_pair(ka, kb, rng, prevB=None):
     return A, B, nearpar
 
 
+def parallel_family():
+    """exactly parallel and antiparallel line-like pairs in every overlap class of their projections, with and without a
+    perpendicular offset: list of (function name, A, B)"""
+    dirs = ([1, 0, 0], [0, 1, 1], [1, 2, 2])
+    fam, out = [], []
+    for d in dirs:
+        d = np.array(d)
+        u, _ = PR.ortho_int(d)
+        for off in (0, 1):
+            for sgn in (1, -1):
+                for (a0, a1), (b0, b1) in (((0, 3), (5, 7)), ((5, 7), (0, 3)), ((0, 3), (3, 6)), ((0, 4), (2, 7)), ((2, 7), (0, 4)),
+                                           ((0, 6), (2, 4)), ((2, 4), (0, 6)), ((0, 3), (0, 3)), ((4, 1), (0, 2)), ((0, 2), (4, 1))):
+                    pa, pb = [int(x) for x in a0 * d], [int(x) for x in a1 * d]
+                    qa, qb = (b0 * d + off * u, b1 * d + off * u) if sgn == 1 else (b1 * d + off * u, b0 * d + off * u)
+                    fam.append((pa, pb, [int(x) for x in qa], [int(x) for x in qb], [int(x) for x in sgn * d]))
+    for fname, mk in (("line_segment_to_line_segment", lambda f: (PR.Prim("line_segment", a=f[0], b=f[1]), PR.Prim("line_segment", a=f[2], b=f[3]))),
+                      ("line_to_line_segment", lambda f: (PR.Prim("line", x=f[0], d=[f[1][i] - f[0][i] for i in range(3)]), PR.Prim("line_segment", a=f[2], b=f[3]))),
+                      ("line_to_line", lambda f: (PR.Prim("line", x=f[0], d=[f[1][i] - f[0][i] for i in range(3)]), PR.Prim("line", x=f[2], d=f[4])))):
+        for f in fam:
+            A, B = mk(f)
+            out.append((fname, A, B))
+    return out
+
+
 def gen(tier, seed, prop):
     rng = random.Random(seed)
     recs, meta, n = [], {}, 0
@@ -205,23 +229,8 @@ def gen(tier, seed, prop):
     # systematic family (independent of the seed): exactly parallel and antiparallel line-like pairs in every overlap class of
     # their projections (disjoint on either side, touching ends, partial overlap on either side, containment, equal), with and
     # without a perpendicular offset - the arrangements in which the parallel branch of the segment routines decides alone
-    dirs = ([1, 0, 0], [0, 1, 1], [1, 2, 2])
-    fam = []
-    for d in dirs:
-        d = np.array(d)
-        u, _ = PR.ortho_int(d)
-        for off in (0, 1):
-            for sgn in (1, -1):
-                for (a0, a1), (b0, b1) in (((0, 3), (5, 7)), ((5, 7), (0, 3)), ((0, 3), (3, 6)), ((0, 4), (2, 7)), ((2, 7), (0, 4)),
-                                           ((0, 6), (2, 4)), ((2, 4), (0, 6)), ((0, 3), (0, 3)), ((4, 1), (0, 2)), ((0, 2), (4, 1))):
-                    pa, pb = [int(x) for x in a0 * d], [int(x) for x in a1 * d]
-                    qa, qb = (b0 * d + off * u, b1 * d + off * u) if sgn == 1 else (b1 * d + off * u, b0 * d + off * u)
-                    fam.append((pa, pb, [int(x) for x in qa], [int(x) for x in qb], [int(x) for x in sgn * d]))
-    for fname, mk in (("line_segment_to_line_segment", lambda f: (PR.Prim("line_segment", a=f[0], b=f[1]), PR.Prim("line_segment", a=f[2], b=f[3]))),
-                      ("line_to_line_segment", lambda f: (PR.Prim("line", x=f[0], d=[f[1][i] - f[0][i] for i in range(3)]), PR.Prim("line_segment", a=f[2], b=f[3]))),
-                      ("line_to_line", lambda f: (PR.Prim("line", x=f[0], d=[f[1][i] - f[0][i] for i in range(3)]), PR.Prim("line", x=f[2], d=f[4])))):
-        for f in fam:
-            A, B = mk(f)
+    for fname, A, B in parallel_family():
+        if True:
             for lk in ("id", "rigid1"):
                 lift = prim_lift(rng, A, B, lk)
                 n += 1
